@@ -48,7 +48,8 @@ pub fn created(i: usize) -> u8 {
 }
 
 /// Pointer-free sequential iterator yielding its own positions `0..len`; fused.
-/// `hint`: 0 exact, 1 inexact `(0, Some(rem))`, 2 unbounded `(0, None)`.
+/// `hint`: 0 exact, 1 inexact `(0, Some(rem))`, 2 unbounded `(0, None)`, 3 exact-looking but over-promising by 2
+/// (size hints are not trusted in Rust: the end, once reported, must still be permanent).
 #[derive(Debug, Clone)]
 pub struct Probe {
     pub pos: usize,
@@ -78,7 +79,8 @@ impl Iterator for Probe {
         match self.hint {
             0 => (rem, Some(rem)),
             1 => (0, Some(rem)),
-            _ => (0, None),
+            2 => (0, None),
+            _ => (rem + 2, Some(rem + 2)),
         }
     }
 }
